@@ -6,6 +6,12 @@ import json, os, subprocess, sys, time
 HERE = os.path.dirname(os.path.abspath(__file__))
 VERIF = os.path.dirname(os.path.dirname(HERE))
 TREE = os.environ.get("VERIF_SELFTEST_TREE", "/var/tmp/stream_mut")
+if not os.path.isdir(os.path.join(TREE, ".git")):
+    # never mutate the tree a running check builds from: work on a private copy of include/ + source/
+    base = os.environ.get("VERIF_REPO", "/repo")
+    os.makedirs(TREE, exist_ok=True)
+    subprocess.run(["cp", "-r", os.path.join(base, "include"), os.path.join(base, "source"), TREE], check=True)
+    subprocess.run("git init -q . && git add -A >/dev/null && git -c user.email=selftest@verif -c user.name=selftest commit -qm base >/dev/null", shell=True, cwd=TREE, check=True)
 tests = json.load(open(os.path.join(HERE, "selftest.json")))
 only = set(sys.argv[1:])
 res = []
